@@ -71,6 +71,7 @@ struct Hist {
     bool opSecondObject();
     bool opManyPoints();
     bool opRetainedRefEdit();
+    bool opManyFrames();
     bool opBulkParams();
     void loadDecoy();
     bool bulkDone;
